@@ -63,6 +63,9 @@ func rulesC03(c *Ctx) {
 	c04Gate(c)
 	c.Rule("shared")
 	c12Shared(c)
+	// "recorded successes and failures": what the breaker records is decided by the handle conditions as registered
+	// (RecordError classifies (zero, err): a result condition that ignored the error would match every recorded error)
+	c12Registrars(c)
 	buildersStore(c, "circuitbreaker")
 	delegatingBuilders(c, "circuitbreaker")
 	witnessRules(c, "C03")
@@ -614,7 +617,7 @@ func c03Edges(c *Ctx) {
 		sc := stateConst(c, ts, wantState)
 		for _, p := range ev.Run(fn) {
 			evs := impure(p)
-			if len(evs) != 1 || !isCall(evs[0], "transitionTo") || sc == nil || evs[0].Args[0] != sc || loadedField(evs[0].Args[2]) != wantListener {
+			if len(evs) != 1 || !isCall(evs[0], "transitionTo") || sc == nil || len(evs[0].Args) < 3 || evs[0].Args[0] != sc || loadedField(evs[0].Args[2]) != wantListener {
 				good = false
 				c.Fail(c.fn(fn), c.P.FuncPos(fn), fmt.Sprintf("%s must be exactly transitionTo(%s, …, %s)", tr, wantState, wantListener), pathTrace(ev, p))
 				continue
